@@ -18,6 +18,7 @@ mod c11;
 mod c12;
 mod c13;
 mod c14;
+mod c15;
 mod c16;
 mod c17;
 mod c18;
@@ -235,6 +236,7 @@ fn main() {
         "C09" => c09::run(thorough),
         "C10" => c10::run(thorough),
         "C11" => c11::run(thorough),
+        "C15" => c15::run(thorough),
         "C16" => c16::run(thorough),
         "C17" => c17::run(thorough),
         "C12" => c12::run(thorough),
